@@ -37,7 +37,7 @@ DISTINCT = ['rsa_shape', 'ec_shape', 'pem_cfg', 'pem_dec_cfg', 'pem_bad_kind', '
 REQUIRED = ['fixture_keys', 'cmp_lenquery', 'cmp_enc_bytes', 'cmp_skey_rsa', 'cmp_skey_ec', 'cmp_keypem',
             'cmp_pkey_rsa_spki', 'cmp_pkey_rsa_raw', 'cmp_pkey_ec_spki', 'cmp_ec_ossl_decodes_ours',
             'cmp_pem_enc', 'cmp_pem_enc_inplace', 'cmp_pem_dec', 'cmp_pem_banner', 'cmp_pem_bad',
-            'cmp_pem_trunc', 'cmp_pem_notbanner', 'cmp_pem_multi', 'multi_with_bad_object',
+            'cmp_pem_trunc', 'cmp_pem_notbanner', 'cmp_pem_multi', 'cmp_pem_long_lived_context', 'multi_with_bad_object',
             'cmp_skey_ec_pkcs8_inner_params', 'cmp_skey_ec_curve_conflict', 'alt_ec_raw_no_params', 'alt_rsa_pkcs8_no_null']
 
 HERE = os.path.dirname(os.path.dirname(os.path.abspath(__file__)))
